@@ -2,3 +2,6 @@
 //! an independent strict parser/writer of the JVMS class-file format, an assembler that builds
 //! class files from abstract descriptions, and the conversion of duke's tree into comparable
 //! "facts".  See README.md in this directory.
+pub mod jstr;
+pub mod opcodes;
+pub mod raw;
